@@ -92,7 +92,8 @@ ArriveWith(i, inc, route) ==
     /\ ~flushed /\ rq[i].pc = "idle"
     /\ rq' = [rq EXCEPT ![i] = [Idle EXCEPT !.pc = "rid", !.inc = inc, !.route = route, !.hdr = Hdr(inc)]]
     /\ UNCHANGED <<cfg, used, usedU, snap, queue, received, flushed>>
-Arrive(i) == \E inc \in Incomings, route \in Routes : ArriveWith(i, inc, route)
+Arrive(i) == /\ ~flushed /\ rq[i].pc = "idle"       \* (guard first: the universe is only enumerated for an idle request)
+             /\ \E inc \in Incomings, route \in Routes : ArriveWith(i, inc, route)
 
 \* proxy.header.requestid: "set this header on every request to the unique UUID value"
 SetReqIdWith(i, u) ==
